@@ -864,6 +864,28 @@ fn clone_own_slot(node: &Node, j: usize) {
         exec::set_msg(&format!("clone of a handle to destroyed object {} (state {:?}) from the destructor of {}", t, st, node.id.get()));
         sh.expect_abort = 1;
     }
+    if certain_dead && (wd.layout_lo.get() >> 12) & 1 == 1 && node.slots.borrow().len() >= 2 {
+        // the same through `Clone::clone_from`: the handle to the destroyed
+        // object is cloned *into* another handle this value owns (preferably one
+        // to the same destroyed object)
+        label(lab::DEAD_CLONE_FROM);
+        let (dst, src): (*mut Rc<Node>, *const Rc<Node>) = {
+            let mut s = node.slots.borrow_mut();
+            let n = s.len();
+            let k = (0..n).find(|&k| k != j && s[k].target == t).unwrap_or((j + 1) % n);
+            let src: *const Rc<Node> = &*s[j].h;
+            let dst: *mut Rc<Node> = &mut *s[k].h;
+            (dst, src)
+        };
+        exec::set_msg(&format!("clone_from of a handle to destroyed object {} (state {:?}) into another handle owned by the same value, from the destructor of {}", t, st, node.id.get()));
+        let r = catch_unwind(AssertUnwindSafe(|| lib(|| unsafe { (*dst).clone_from(&*src) })));
+        shared().after_abort = 1;
+        if let Err(e) = r {
+            std::mem::forget(e);
+            violate(View::Abort, &format!("clone_from of a handle to destroyed object {} panicked ({}) instead of terminating the process", t, take_panic_loc()));
+        }
+        violate(View::Abort, &format!("clone_from of a handle to already destroyed object {} returned normally instead of aborting", t));
+    }
     let c = {
         let s = node.slots.borrow();
         if certain_dead || predicted_dead {
